@@ -1,7 +1,7 @@
 #!/bin/bash
-# usage: tools/seed_verify.sh Cxx   -- confirm a seeded change in its scratch worktree /tmp/seed/Cxx
+# usage: tools/seed_verify.sh Cxx [base dir] [name]  -- confirm a seeded change in its scratch worktree <base>/Cxx
 # (suite passes with it 3x, demo fails with it and passes without it), store it under seeded/Cxx.
-ID=$1; W=/tmp/seed/$ID; OUT=/verif/seeded/$ID
+ID=$1; BASE=${2:-/tmp/seed}; NAME=${3:-$ID}; W=$BASE/$ID; OUT=/verif/seeded/$NAME
 mkdir -p $OUT
 cd $W || exit 2
 git diff -- gmlc > $OUT/patch.diff
@@ -16,9 +16,9 @@ for i in 1 2 3; do if ctest --test-dir _build -j8 --timeout 900 2>&1 | grep -q "
 echo "$ID: suite with change: $PASS/3"
 # demo with / without
 chmod +x demo/run.sh 2>/dev/null
-( cd $W && timeout 900 bash demo/run.sh >/tmp/seed/$ID.demo_with.log 2>&1 ); RC_WITH=$?
+( cd $W && timeout 900 bash demo/run.sh >$BASE/$ID.demo_with.log 2>&1 ); RC_WITH=$?
 git apply -R $OUT/patch.diff || { echo "$ID: cannot revert"; exit 2; }
-( cd $W && timeout 900 bash demo/run.sh >/tmp/seed/$ID.demo_without.log 2>&1 ); RC_WITHOUT=$?
+( cd $W && timeout 900 bash demo/run.sh >$BASE/$ID.demo_without.log 2>&1 ); RC_WITHOUT=$?
 git apply $OUT/patch.diff
 echo "$ID: demo rc with=$RC_WITH without=$RC_WITHOUT"
 rm -rf $OUT/demo; mkdir -p $OUT/demo
